@@ -47,8 +47,8 @@ def databases(ctx) -> List[Tuple[str, str, list]]:
     return out
 
 
-def rule_d1(ctx) -> None:
-    ctx.rule("C08-D1", "record.Composition (explicit Q) == folded composition of record.smiles, every record of both databases", 60)
+def rule_d1(ctx, rule_id: str = "C08-D1") -> None:
+    ctx.rule(rule_id, "record.Composition (explicit Q) == folded composition of record.smiles, every record of both databases", 60)
     for name, rel, db in databases(ctx):
         ctx.require(isinstance(db, list) and db, "%s is not a non-empty list of records" % rel)
         for i, rec in enumerate(db):
@@ -57,14 +57,14 @@ def rule_d1(ctx) -> None:
             smi = rec.get("smiles")
             comp = rec.get("Composition")
             if not isinstance(smi, str) or not isinstance(comp, dict):
-                ctx.instance("C08-D1", key, where, ok=False)
-                ctx.finding("C08-D1", key + ":shape", where, "record lacks smiles/Composition")
+                ctx.instance(rule_id, key, where, ok=False)
+                ctx.finding(rule_id, key + ":shape", where, "record lacks smiles/Composition")
                 continue
             folded = tables.fold_rdkit(smi)
             second = tables.fold_simple(smi)
             if folded is None:
-                ctx.instance("C08-D1", key, where, ok=False)
-                ctx.finding("C08-D1", key + ":unparsable", where, "SMILES %r does not parse" % smi)
+                ctx.instance(rule_id, key, where, ok=False)
+                ctx.finding(rule_id, key + ":unparsable", where, "SMILES %r does not parse" % smi)
                 continue
             if second is not None and second != folded:
                 ctx.note("independent fold disagrees with RDKit on %r: %s vs %s (RDKit decides)" % (smi, second, folded))
@@ -82,9 +82,9 @@ def rule_d1(ctx) -> None:
                 problems.append("non-integer count")
             if any(v <= 0 for k, v in comp.items() if k != "Q" and isinstance(v, int)):
                 problems.append("non-positive element count")
-            ctx.instance("C08-D1", key, where, ok=not problems, folded=folded)
+            ctx.instance(rule_id, key, where, ok=not problems, folded=folded)
             if problems:
-                ctx.finding("C08-D1", key, where, "recorded composition differs from the SMILES: " + "; ".join(problems))
+                ctx.finding(rule_id, key, where, "recorded composition differs from the SMILES: " + "; ".join(problems))
 
 
 def rule_d2(ctx) -> None:
